@@ -1802,9 +1802,10 @@ def r2_documented_errors(run):
     qv = stmt.targets[0].id
     # the constructor calls that receive q
     uses = []
+    q_aliases = _alias_closure(f.node, qv)          # `weight = q; return cls(..., weight, ...)`
     for n in cfg.live_nodes():
         if n.kind == 'stmt' and isinstance(n.ast, ast.Return) and n.ast.value is not None and \
-                any(isinstance(x, ast.Name) and x.id == qv for x in walk_self(n.ast.value)):
+                any(isinstance(x, ast.Name) and x.id in q_aliases for x in walk_self(n.ast.value)):
             uses.append(n)
     if not uses:
         raise AnchorError('_MediaRange.parse: no return using the parsed q')
@@ -2766,6 +2767,254 @@ def _resolver_escapes(run, p, res: Func, best_calls):
     run.extra['c11_resolver_escape'] = {'summary': sorted(summ), 'sites': E.sites_seen, 'calls_resolved': E.calls_resolved}
 
 
+# R4 (a), the EFFECTIVE type of each lookup (rewritten after seeded change s7-c11-1).  The resolver consults the mapping
+# twice - the exact lookup and the best-match negotiation - and both have to be asked about the same text: the default when
+# the requested type is missing or '*/*', the requested type itself otherwise.  Which text each of them receives is decided
+# by running the resolver's own statements on the finite domain requested in {None, '', '*/*', 'a/b'} with a marker for the
+# default (_EffectiveTypes): locals bound from the two parameters (`effective = default if ... else media_type`,
+# `media_type = media_type or default`, partition / slice re-assemblies) are evaluated, branch tests that can be evaluated
+# prune the paths, everything else is followed both ways.  Letter case is not this clause's business (R9): case folds are
+# the identity here.
+_REQ_DOMAIN = (None, '', '*/*', 'a/b')
+_DEFAULT_MARK = 'default/type'
+_STR_METHODS = ('partition', 'rpartition', 'split', 'rsplit', 'strip', 'lstrip', 'rstrip', 'startswith', 'endswith', 'join', 'format',
+                'replace', 'find', 'index', 'count', 'removeprefix', 'removesuffix')
+
+
+class _NoValue(Exception):
+    pass
+
+
+class _EffectiveTypes:
+    """A concrete interpreter of the string-valued locals of one function over its CFG."""
+
+    def __init__(self, cfg, observe: Dict[int, ast.AST]):
+        self.cfg = cfg
+        self.observe = observe                 # node id -> expression whose value is recorded on entry to the node
+        self.seen: Dict[int, list] = {}        # node id -> [(label, value | _NoValue instance, path)]
+
+    def ev(self, e, env: dict):
+        e = _unwrap_cast(e)
+        if isinstance(e, ast.Constant):
+            return e.value
+        if isinstance(e, ast.Name):
+            if e.id in env:
+                return env[e.id]
+            raise _NoValue(e.id)
+        if isinstance(e, ast.NamedExpr) and isinstance(e.target, ast.Name):
+            try:
+                v = self.ev(e.value, env)
+            except _NoValue:
+                env.pop(e.target.id, None)
+                raise
+            env[e.target.id] = v
+            return v
+        if isinstance(e, ast.BoolOp):
+            v = None
+            for x in e.values:
+                v = self.ev(x, env)
+                if isinstance(e.op, ast.Or) and v:
+                    return v
+                if isinstance(e.op, ast.And) and not v:
+                    return v
+            return v
+        if isinstance(e, ast.UnaryOp) and isinstance(e.op, ast.Not):
+            return not self.ev(e.operand, env)
+        if isinstance(e, ast.IfExp):
+            return self.ev(e.body if self.ev(e.test, env) else e.orelse, env)
+        if isinstance(e, ast.Compare):
+            left = self.ev(e.left, env)
+            for op, c in zip(e.ops, e.comparators):
+                right = self.ev(c, env)
+                try:
+                    if isinstance(op, ast.Eq):
+                        r = left == right
+                    elif isinstance(op, ast.NotEq):
+                        r = left != right
+                    elif isinstance(op, ast.Is):
+                        r = left is right if (left is None or right is None) else left == right
+                    elif isinstance(op, ast.IsNot):
+                        r = left is not right if (left is None or right is None) else left != right
+                    elif isinstance(op, ast.In):
+                        r = left in right
+                    elif isinstance(op, ast.NotIn):
+                        r = left not in right
+                    else:
+                        raise _NoValue(unparse(e))
+                except TypeError:
+                    raise _NoValue(unparse(e))
+                if not r:
+                    return False
+                left = right
+            return True
+        if isinstance(e, (ast.Tuple, ast.List, ast.Set)) and not any(isinstance(x, ast.Starred) for x in e.elts):
+            vals = [self.ev(x, env) for x in e.elts]
+            return tuple(vals) if not isinstance(e, ast.Set) else frozenset(vals)
+        if isinstance(e, ast.BinOp) and isinstance(e.op, ast.Add):
+            l, r = self.ev(e.left, env), self.ev(e.right, env)
+            if isinstance(l, str) and isinstance(r, str):
+                return l + r
+            raise _NoValue(unparse(e))
+        if isinstance(e, ast.JoinedStr):
+            out = ''
+            for v in e.values:
+                if isinstance(v, ast.Constant):
+                    out += str(v.value)
+                elif isinstance(v, ast.FormattedValue) and v.conversion == -1 and v.format_spec is None:
+                    x = self.ev(v.value, env)
+                    if not isinstance(x, str):
+                        raise _NoValue(unparse(e))
+                    out += x
+                else:
+                    raise _NoValue(unparse(e))
+            return out
+        if isinstance(e, ast.Subscript) and isinstance(e.ctx, ast.Load):
+            base = self.ev(e.value, env)
+            if not isinstance(base, (str, tuple)):
+                raise _NoValue(unparse(e))
+            try:
+                if isinstance(e.slice, ast.Slice):
+                    lo, hi, st = [None if x is None else self.ev(x, env) for x in (e.slice.lower, e.slice.upper, e.slice.step)]
+                    return base[lo:hi:st]
+                return base[self.ev(e.slice, env)]
+            except (TypeError, IndexError, ValueError):
+                raise _NoValue(unparse(e))
+        if isinstance(e, ast.Call) and isinstance(e.func, ast.Name) and e.func.id in ('str', 'len', 'bool') and len(e.args) == 1 and not e.keywords:
+            v = self.ev(e.args[0], env)
+            if e.func.id == 'str':
+                if isinstance(v, str):
+                    return v
+                raise _NoValue(unparse(e))          # str(None) is the text 'None': not a type anybody means
+            if e.func.id == 'bool':
+                return bool(v)
+            if isinstance(v, (str, tuple)):
+                return len(v)
+            raise _NoValue(unparse(e))
+        if isinstance(e, ast.Call) and isinstance(e.func, ast.Attribute) and not e.keywords:
+            if isinstance(e.func.value, ast.Name) and e.func.value.id == 'str' and 'str' not in env and e.func.attr in CASE_FOLDS and len(e.args) == 1:
+                v = self.ev(e.args[0], env)
+                if isinstance(v, str):
+                    return v
+                raise _NoValue(unparse(e))
+            recv = self.ev(e.func.value, env)
+            if not isinstance(recv, str):
+                raise _NoValue(unparse(e))          # None.lower(): the statement raises, no value
+            if e.func.attr in CASE_FOLDS and not e.args:
+                return recv                         # letter case: R9
+            if e.func.attr in _STR_METHODS:
+                args = [self.ev(a, env) for a in e.args]
+                try:
+                    v = getattr(recv, e.func.attr)(*args)
+                except Exception:
+                    raise _NoValue(unparse(e))
+                return tuple(v) if isinstance(v, list) else v
+        raise _NoValue(unparse(e))
+
+    def _bind(self, target, value, env):
+        if isinstance(target, ast.Name):
+            env[target.id] = value
+        elif isinstance(target, (ast.Tuple, ast.List)) and isinstance(value, tuple) and len(value) == len(target.elts) \
+                and not any(isinstance(t, ast.Starred) for t in target.elts):
+            for t, v in zip(target.elts, value):
+                self._bind(t, v, env)
+        else:
+            self._unbind(target, env)
+
+    @staticmethod
+    def _unbind(node, env):
+        for x in ast.walk(node):
+            if isinstance(x, ast.Name) and isinstance(x.ctx, ast.Store):
+                env.pop(x.id, None)
+
+    def run(self, label, init: dict, limit=20000):
+        cfg = self.cfg
+        start = (cfg.entry, tuple(sorted(init.items(), key=lambda kv: kv[0])))
+        stack = [(start, (cfg.entry,))]
+        visited = {start}
+        while stack:
+            (nid, envt), path = stack.pop()
+            if len(visited) > limit:
+                raise UnknownIdiom('resolver: too many states while evaluating the effective media type')
+            n = cfg.node(nid)
+            env = dict(envt)
+            if nid in self.observe:
+                try:
+                    got = self.ev(self.observe[nid], dict(env))
+                except _NoValue as ex:
+                    got = ex
+                self.seen.setdefault(nid, []).append((label, got, path))
+            before = dict(env)
+            outcome = None
+            if n.kind == 'test':
+                try:
+                    outcome = bool(self.ev(n.ast, env))
+                except _NoValue:
+                    outcome = None
+                    for x in n.walk():
+                        if isinstance(x, ast.NamedExpr):
+                            self._unbind(x.target, env)
+            elif n.kind == 'stmt' and isinstance(n.ast, ast.Assign):
+                try:
+                    v = self.ev(n.ast.value, env)
+                except _NoValue:
+                    for t in n.ast.targets:
+                        self._unbind(t, env)
+                else:
+                    for t in n.ast.targets:
+                        self._bind(t, v, env)
+            elif n.kind == 'stmt' and isinstance(n.ast, ast.AnnAssign) and n.ast.value is not None:
+                try:
+                    self._bind(n.ast.target, self.ev(n.ast.value, env), env)
+                except _NoValue:
+                    self._unbind(n.ast.target, env)
+            elif n.kind in ('stmt', 'iter', 'with', 'handler'):
+                a = n.ast
+                if n.kind == 'handler':
+                    if getattr(a, 'name', None):
+                        env.pop(a.name, None)
+                elif a is not None:
+                    for x in n.walk():
+                        if isinstance(x, ast.Name) and isinstance(x.ctx, (ast.Store, ast.Del)):
+                            env.pop(x.id, None)
+            for (y, l) in cfg.succ[nid]:
+                if outcome is not None and l in ('T', 'F') and (l == 'T') != outcome:
+                    continue
+                e2 = before if l == 'exc' else env
+                st = (y, tuple(sorted(e2.items(), key=lambda kv: kv[0])))
+                if st not in visited:
+                    visited.add(st)
+                    stack.append((st, path + (y,)))
+
+
+def _show_type(v) -> str:
+    return 'the default' if v == _DEFAULT_MARK else 'the requested type' if v == 'a/b' else repr(v)
+
+
+def _pure_selection(e, names: Set[str]) -> bool:
+    """`e` hands out one of `names` verbatim: a name, `a or b` / `a and b`, a conditional expression of such"""
+    e = _unwrap_cast(e)
+    if isinstance(e, ast.Name):
+        return e.id in names
+    if isinstance(e, ast.BoolOp):
+        return all(_pure_selection(v, names) for v in e.values)
+    if isinstance(e, ast.IfExp):
+        return _pure_selection(e.body, names) and _pure_selection(e.orelse, names)
+    return False
+
+
+def _derived_closure_of(fnode, seeds: Set[str]) -> Set[str]:
+    out = set(seeds)
+    changed = True
+    binds = list(_bindings_from(fnode))
+    while changed:
+        changed = False
+        for tgts, v in binds:
+            if not tgts <= out and _text_derived(v, out):
+                out |= tgts
+                changed = True
+    return out
+
+
 def r4_resolution(run):
     p = run.project
     cr = p.func(HANDLERS + '._create_resolver')
@@ -2776,15 +3025,16 @@ def r4_resolution(run):
     if len(params) != 3:
         raise UnknownIdiom('resolver takes %s' % params)
     mt, dflt, rnf = params
+    # the requested type, the default, and the locals bound to text built from them (never the RESULT of a call that
+    # receives them: what best-match answers is not the requested type)
+    tnames = _derived_closure_of(res.node, {mt, dflt})
+    for tgts, v in _bindings_from(res.node):
+        if not _text_derived(v, tnames):
+            tnames -= (tgts - {mt, dflt})       # a local that is ALSO bound to something else (a best-match answer) is not the type
 
     def is_mt(e):
-        return isinstance(e, ast.Name) and e.id == mt
-
-    def is_star(e):
-        if isinstance(e, ast.Compare) and len(e.ops) == 1 and isinstance(e.ops[0], ast.Eq):
-            l, r = e.left, e.comparators[0]
-            return (is_mt(l) and isinstance(r, ast.Constant) and r.value == '*/*') or (is_mt(r) and isinstance(l, ast.Constant) and l.value == '*/*')
-        return False
+        e = _unwrap_cast(e)
+        return not isinstance(e, ast.Constant) and _text_derived(e, tnames)
 
     # exact lookups of the requested type and best-match calls
     def exact_lookup(n):
@@ -2795,6 +3045,9 @@ def r4_resolution(run):
                     and x.args and is_mt(x.args[0]):
                 return x
         return None
+
+    def lookup_key(x):
+        return x.slice if isinstance(x, ast.Subscript) else x.args[0]
 
     def best_call(n):
         for c in n.calls():
@@ -2813,55 +3066,42 @@ def r4_resolution(run):
     # (e) "the designated handler or a 415": nothing but HTTPUnsupportedMediaType leaves the resolver
     _resolver_escapes(run, p, res, [best_call(b) for b in B])
 
-    # (a) */* or empty -> default before any use of the requested type
-    use_ids = {n.id for n in L} | {n.id for n in B}
-
-    def lab(n):
-        out = []
-        if n.kind == 'stmt' and isinstance(n.ast, (ast.Assign, ast.AnnAssign, ast.AugAssign)):
-            tgts = n.ast.targets if isinstance(n.ast, ast.Assign) else [n.ast.target]
-            if any(isinstance(x, ast.Name) and x.id == mt and isinstance(x.ctx, ast.Store) for t in tgts if not is_mt(t) for x in ast.walk(t)):
-                raise UnknownIdiom('resolver: requested type rebound by %s' % short(n.ast, 80))
-            if any(is_mt(t) for t in tgts):
-                v = getattr(n.ast, 'value', None)
-                if isinstance(n.ast, ast.Assign) and isinstance(v, ast.Name) and v.id == dflt:
-                    out.append('DEFAULT')
-                elif isinstance(n.ast, ast.Assign) and _same_text_modulo_case(res.node, n.ast, mt):
-                    pass        # `mt = mt.lower()` / a re-assembled partition with folded pieces: the same text up to letter case -
-                    #             emptiness and "is */*" are unchanged; whether folding is right is R9's verdict
-                else:
-                    raise UnknownIdiom('resolver: requested type rebound by %s' % short(n.ast, 80))
-        if n.id in use_ids:
-            out.append('^USE')
-        return out
-
-    def delta(st, l):
-        if l == 'DEFAULT':
-            return (True, True)
-        if l == 'USE' and st != (True, True):
-            return ERROR
-        return st
-
-    def edge_delta(st, a, b, l):
-        n = cfg.node(a)
-        if n.kind == 'test' and l in ('T', 'F'):
-            nonempty, notstar = st
-            if implied(n.ast, l == 'T', is_mt) is True:
-                nonempty = True
-            if implied(n.ast, l == 'T', is_star) is False:
-                notstar = True
-            return (nonempty, notstar)
-        return st
-
-    cex, _, _ = flow.typestate(cfg, lab, delta, (False, False), edge_delta=edge_delta)
-    if cex is None:
-        run.ok("resolver: a missing or '*/*' media type is replaced by the default before the mapping is consulted", res.loc())
-    else:
-        path, st, reason = cex
-        bad = cfg.node(path[-1])
-        run.fail("resolver consults the mapping with a media type that may still be empty or '*/*'", res, bad.ast,
-                 where='%s:%s' % (res.file, bad.lineno), witness=flow.describe_path(cfg, path),
-                 runtime_witness="_resolve('*/*', default) -> 415 / wildcard match instead of the default handler")
+    # (a) both lookups are asked about the EFFECTIVE type: the default for a missing or '*/*' requested type, the requested
+    #     type otherwise - decided by evaluating the key expression of each lookup on the finite domain
+    observe: Dict[int, ast.AST] = {}
+    for n in L:
+        observe[n.id] = lookup_key(exact_lookup(n))
+    for n in B:
+        c, _t = best_call(n)
+        wanted = [a for a in list(c.args) + [k.value for k in c.keywords] if not _mentions_mapping(a) and is_mt(a)]
+        if len(wanted) != 1 or n.id in observe:
+            raise UnknownIdiom('resolver: best-match call %s' % short(c, 100))
+        observe[n.id] = wanted[0]
+    interp = _EffectiveTypes(cfg, observe)
+    for req in _REQ_DOMAIN:
+        interp.run(req, {mt: req, dflt: _DEFAULT_MARK})
+    for n in L + B:
+        kind = 'exact lookup' if n in L else 'best-match negotiation'
+        got = interp.seen.get(n.id, [])
+        if not got:
+            raise UnknownIdiom('resolver: the %s %s is not reached for any requested type' % (kind, n.text()))
+        unread = [(req, v) for (req, v, _p) in got if isinstance(v, _NoValue)]
+        if unread:
+            raise UnknownIdiom('resolver: media type handed to the %s cannot be evaluated for requested type %r: %s' % (
+                kind, unread[0][0], short(observe[n.id], 60)))
+        wrong = [(req, v, pth) for (req, v, pth) in got if v != (req if req == 'a/b' else _DEFAULT_MARK)]
+        table = sorted({'requested %r -> %s' % (req, _show_type(v)) for (req, v, _p) in got})
+        what = "resolver: the %s is asked about the default when the requested type is missing or '*/*', and about the requested " \
+               'type itself otherwise (the same effective type for both lookups)' % kind
+        if not wrong:
+            run.ok(what + ' [%s]' % '; '.join(table), res.loc(n.ast), n.ast)
+            continue
+        req, v, pth = wrong[0]
+        run.fail(what, res, n.ast, where='%s:%s' % (res.file, n.lineno),
+                 witness=['evaluated %s: %s' % (short(observe[n.id], 60), '; '.join(table))] + flow.describe_path(cfg, pth),
+                 runtime_witness="_resolve(%r, default): the %s sees %s - with a default type that is not registered verbatim "
+                                 "('application/json; charset=UTF-8') a '*/*' body goes to whichever registered handler negotiates "
+                                 "best against '*/*' (the first one) instead of the default type's handler or a 415" % (req, kind, _show_type(v)))
 
     # (b) exact hit first
     l_ids = [n.id for n in L]
@@ -2902,10 +3142,10 @@ def r4_resolution(run):
         c, t = best_call(b)
         roles = []
         for a in c.args:
-            if is_mt(a):
-                roles.append('wanted')
-            elif _mentions_mapping(a):
+            if _mentions_mapping(a):
                 roles.append('keys')
+            elif is_mt(a):
+                roles.append('wanted')
             else:
                 roles.append('?')
         if c.keywords or sorted(roles) != ['keys', 'wanted']:
@@ -3839,16 +4079,20 @@ def r9_same_case_form(run):
     #     one (pieces of a partition / split / slices, concatenated, formatted or joined): a case fold on ANY piece is a fold
     #     of the requested side.  A rebinding without a fold, or one this rule cannot read, stays an unknown idiom.
     for stmt, v in _assignments(res.node, mt):
-        if isinstance(stmt, ast.Assign) and isinstance(v, ast.Name) and v.id == dflt:
-            continue                                       # the default fallback (R4)
+        if isinstance(stmt, (ast.Assign, ast.AnnAssign)) and v is not None and _pure_selection(v, names | {dflt}) and not F.folds(v):
+            continue                                       # the default fallback / a selection between the two texts as they are (R4)
         folds = sorted(F.folds(v)) if isinstance(stmt, (ast.Assign, ast.AnnAssign)) and v is not None and F.derived(v) else []
         if not folds:
             raise UnknownIdiom('resolver: requested type rebound by %s' % short(stmt, 80))
         req.append((stmt, folds))
-    # (2) the operands of the two comparisons
+    # (2) the operands of the two comparisons (the requested type, the default substituted for it, locals built from them)
+    opnames = _derived_closure_of(res.node, names | {dflt})
+    for tgts, v in _bindings_from(res.node):
+        if not _text_derived(v, opnames):
+            opnames -= (tgts - {mt, dflt})                 # also bound to something else (the best-match answer): not the type
     n_ops = 0
     for n in walk_self(res.node):
-        if isinstance(n, ast.Subscript) and isinstance(n.ctx, ast.Load) and _is_selfdata(n.value) and _text_derived(n.slice, names):
+        if isinstance(n, ast.Subscript) and isinstance(n.ctx, ast.Load) and _is_selfdata(n.value) and _text_derived(n.slice, opnames):
             n_ops += 1
             if F.folds(n.slice):
                 req.append((n, sorted(F.folds(n.slice))))
@@ -3859,12 +4103,12 @@ def r9_same_case_form(run):
                     if _mentions_mapping(a):
                         if any(isinstance(x, ast.Call) and isinstance(x.func, ast.Attribute) and x.func.attr in CASE_FOLDS for x in ast.walk(a)):
                             raise UnknownIdiom('resolver: the keys are case-folded only for the comparison in %s' % short(n, 80))
-                    elif _text_derived(a, names):
+                    elif _text_derived(a, opnames):
                         n_ops += 1
                         if F.folds(a):
                             req.append((n, sorted(F.folds(a))))
             elif isinstance(n.func, ast.Attribute) and n.func.attr == 'get' and _is_selfdata(n.func.value) and n.args \
-                    and _text_derived(n.args[0], names):
+                    and _text_derived(n.args[0], opnames):
                 n_ops += 1
                 if F.folds(n.args[0]):
                     req.append((n, sorted(F.folds(n.args[0]))))
@@ -3918,6 +4162,262 @@ def r9_same_case_form(run):
                      runtime_witness="handlers['Application/JSON'] = h is stored under another spelling than the one the resolver looks up")
     if not blamed:
         raise UnknownIdiom('resolver / __setitem__: case folds %s vs %s' % (f_req, f_key))
+
+
+# ---------------------------------------------------------------------------
+# R11 the weight stored for a range is the parsed float ITSELF (added after
+# seeded change s7-c11-3)
+# ---------------------------------------------------------------------------
+#
+# "... then q": the last criterion compares the q values the client sent, and
+# "q=0 is never chosen" means q == 0, not q < 0.0005.  Between `float(<q text>)`
+# and the constructor slot of the range object the value may be VALIDATED (R2:
+# the range tests) but never rewritten: a round()/int()/floor()/abs()/min()/
+# max()/arithmetic on the way (frozen family Q_TRANSFORMS) changes which of two
+# ranges wins, or turns a small positive weight into a refusal.  Witness:
+# `round(q, 3)`: quality('text/html', 'text/html;q=0.0004') == 0.0, so
+# client_accepts('text/html') is False; 'a/x;q=0.9991, a/y;q=0.9994' is a tie.
+# The q TEXT handed to float() is the parameter value as parsed: a slice of it
+# (`params.pop('q')[:5]`) is the same truncation one step earlier.  What
+# match_score()/quality()/best_match() do with the stored weight is R1's.
+
+Q_TRANSFORMS = ('builtins.round', 'builtins.int', 'builtins.abs', 'builtins.min', 'builtins.max', 'builtins.divmod', 'builtins.pow',
+                'math.floor', 'math.ceil', 'math.trunc', 'math.fabs', 'math.fmod', 'math.copysign', 'math.sqrt', 'math.nextafter',
+                'decimal.Decimal', 'fractions.Fraction', 'builtins.bool')
+_R11_WITNESS = "Accept: 'text/html;q=0.0004' -> quality() is 0.0 / client_accepts('text/html') is False although the client accepts it; " \
+               "'application/xml;q=0.9991, application/json;q=0.9994' becomes a tie decided by candidate order"
+
+
+def _q_shape(p, f: Func, e, is_src) -> Optional[str]:
+    """How `e` relates to the parsed weight: 'same' (the value itself), 'transformed' (a Q_TRANSFORMS call / arithmetic on
+    it), 'unknown' (mentions it in a shape that is not read), None (does not mention it)."""
+    e = _unwrap_cast(e)
+    if is_src(e):
+        return 'same'
+    if not any(is_src(x) for x in ast.walk(e)):
+        return None
+    if isinstance(e, ast.Call):
+        t = p.resolve_callable(f, e.func)
+        args = list(e.args) + [k.value for k in e.keywords]
+        shapes = [_q_shape(p, f, a, is_src) for a in args]
+        if any(is_src(x) for x in ast.walk(e.func)):
+            if isinstance(e.func, ast.Attribute) and e.func.attr in ('__round__', '__trunc__', '__floor__', '__ceil__', '__int__', '__abs__',
+                                                                       'as_integer_ratio', '__floordiv__', '__mul__', '__truediv__'):
+                return 'transformed' if _q_shape(p, f, e.func.value, is_src) in ('same', 'transformed') else 'unknown'
+            return 'unknown'
+        if 'unknown' in shapes:
+            return 'unknown'
+        if t == 'builtins.float' and len(args) == 1:
+            return shapes[0]                                    # float(x) of a float is x
+        if isinstance(t, str) and t in Q_TRANSFORMS:
+            return 'transformed'
+        return 'unknown'
+    if isinstance(e, ast.BinOp):
+        l, r = _q_shape(p, f, e.left, is_src), _q_shape(p, f, e.right, is_src)
+        return 'unknown' if 'unknown' in (l, r) else 'transformed'
+    if isinstance(e, ast.UnaryOp) and isinstance(e.op, (ast.USub, ast.UAdd, ast.Invert)):
+        o = _q_shape(p, f, e.operand, is_src)
+        return o if o == 'unknown' else ('same' if isinstance(e.op, ast.UAdd) and o == 'same' else 'transformed')
+    if isinstance(e, ast.IfExp):
+        b, o = _q_shape(p, f, e.body, is_src), _q_shape(p, f, e.orelse, is_src)
+        if b == o == 'same':
+            return 'same'
+        if 'transformed' in (b, o) and 'unknown' not in (b, o):
+            return 'transformed'
+        return 'unknown'
+    return 'unknown'
+
+
+def _ctor_slots(p, c: Class) -> List[str]:
+    """the constructor's parameter names, in order: __init__'s, or the annotated fields of a dataclass"""
+    init = c.methods.get('__init__')
+    if init is not None:
+        return _param_names(init)
+    decos = [unparse(d) for d in c.node.decorator_list]
+    if not any('dataclass' in d for d in decos):
+        raise UnknownIdiom('%s: neither __init__ nor a dataclass' % c.qual)
+    out = []
+    for st in c.node.body:
+        if isinstance(st, ast.AnnAssign) and isinstance(st.target, ast.Name) and 'ClassVar' not in unparse(st.annotation):
+            out.append(st.target.id)
+    return out
+
+
+def r11_quality_stored_as_parsed(run):
+    p = run.project
+    rc = p.cls(MEDIATYPES + '._MediaRange')
+    f = p.func(MEDIATYPES + '._MediaRange.parse')
+    cfg = cfg_of(f, p)
+    run.use_cfg(cfg)
+    slots = _ctor_slots(p, rc)
+    if 'quality' not in slots:
+        raise AnchorError('%s: no constructor slot named quality (%s)' % (rc.qual, slots))
+    qi = slots.index('quality')
+
+    floats = [c for c in walk_self(f.node) if isinstance(c, ast.Call) and p.resolve_callable(f, c.func) == 'builtins.float']
+    fl = single(floats, 'float() conversion of q', f.qual)
+    parent = enclosing_map(f.node)
+    stmt = fl
+    while not isinstance(stmt, ast.stmt):
+        stmt = parent[id(stmt)]
+    if not (isinstance(stmt, (ast.Assign, ast.AnnAssign)) and isinstance((stmt.targets[0] if isinstance(stmt, ast.Assign) else stmt.target), ast.Name)
+            and (not isinstance(stmt, ast.Assign) or len(stmt.targets) == 1)):
+        raise UnknownIdiom('_MediaRange.parse: float() result is not bound to a local: %s' % short(stmt, 80))
+    qv = (stmt.targets[0] if isinstance(stmt, ast.Assign) else stmt.target).id
+
+    # (1) the text handed to float() is the q parameter as parsed
+    if len(fl.args) != 1 or fl.keywords:
+        raise UnknownIdiom('_MediaRange.parse: %s' % short(fl, 60))
+
+    def q_text(e, depth=0) -> str:
+        """'param' | 'cut' | 'unknown'"""
+        e = _unwrap_cast(e)
+        if isinstance(e, ast.Name) and depth < 4:
+            binds = _assignments(f.node, e.id)
+            if len(binds) == 1 and binds[0][1] is not None:
+                return q_text(binds[0][1], depth + 1)
+            return 'unknown'
+        if isinstance(e, ast.Subscript):
+            if isinstance(e.slice, ast.Slice):
+                return 'cut' if q_text(e.value, depth) in ('param', 'cut') else 'unknown'
+            if isinstance(e.slice, ast.Constant) and e.slice.value == 'q':
+                return 'param'
+            return 'unknown'
+        if isinstance(e, ast.Call) and isinstance(e.func, ast.Attribute):
+            if e.func.attr in ('pop', 'get') and e.args and isinstance(e.args[0], ast.Constant) and e.args[0].value == 'q':
+                return 'param'
+            if e.func.attr in ('strip', 'lstrip', 'rstrip') and not e.args:
+                return q_text(e.func.value, depth)
+            if e.func.attr in ('split', 'rsplit', 'partition', 'rpartition', 'format', 'replace', 'ljust', 'rjust', 'zfill') \
+                    and q_text(e.func.value, depth) in ('param', 'cut'):
+                return 'cut'
+        if isinstance(e, ast.Call) and isinstance(e.func, ast.Name) and e.func.id == 'str' and len(e.args) == 1:
+            return q_text(e.args[0], depth)
+        return 'unknown'
+
+    kind = q_text(fl.args[0])
+    if kind == 'unknown':
+        raise UnknownIdiom('_MediaRange.parse: text handed to float(): %s' % short(fl.args[0], 60))
+    run.check(kind == 'param', "the q text is converted as the client sent it: float() receives the whole value of the 'q' parameter, not a cut of it",
+              f, fl, where=f.loc(fl), runtime_witness=_R11_WITNESS)
+
+    # (2) the float() result is bound as it is
+    def is_fl(e):
+        return e is fl
+    sh = _q_shape(p, f, stmt.value, is_fl)
+    if sh in (None, 'unknown'):
+        raise UnknownIdiom('_MediaRange.parse: %s' % short(stmt, 80))
+    run.check(sh == 'same', 'the parsed weight is kept as float() returned it (validated, never rounded / truncated / scaled)', f, stmt,
+              where=f.loc(stmt), runtime_witness=_R11_WITNESS)
+
+    # (3) no rebinding of it, aliases
+    same: Set[str] = {qv}
+    tainted: Dict[str, ast.AST] = {}
+    changed = True
+    while changed:
+        changed = False
+
+        def is_src(e):
+            return isinstance(e, ast.Name) and isinstance(e.ctx, ast.Load) and (e.id in same or e.id in tainted)
+        for tgts, v in _bindings_from(f.node):
+            if v is stmt.value or v is None:
+                continue
+            shp = _q_shape(p, f, v, is_src)
+            if shp is None:
+                if tgts & (same | set(tainted)) and not (tgts == {qv}):
+                    raise UnknownIdiom('_MediaRange.parse: %s is also bound from %s' % (sorted(tgts & (same | set(tainted))), short(v, 60)))
+                continue
+            if shp == 'unknown' or len(tgts) != 1:
+                raise UnknownIdiom('_MediaRange.parse: the parsed q flows into %s' % short(v, 80))
+            (t,) = tgts
+            reads_tainted = any(isinstance(x, ast.Name) and x.id in tainted for x in ast.walk(v))
+            if shp == 'same' and not reads_tainted:
+                if t not in same:
+                    same.add(t)
+                    changed = True
+            elif t not in tainted:
+                tainted[t] = v
+                changed = True
+    binds_of = {}
+    for n in walk_self(f.node):
+        if isinstance(n, (ast.Assign, ast.AnnAssign, ast.AugAssign, ast.NamedExpr)):
+            binds_of[id(getattr(n, 'value', None))] = n
+    for n in walk_self(f.node):
+        if isinstance(n, ast.AugAssign) and isinstance(n.target, ast.Name) and (n.target.id in same or n.target.id in tainted):
+            if (isinstance(n.op, (ast.Mult, ast.Div)) and _is_const_num(n.value, (1, 1.0))) or \
+                    (isinstance(n.op, (ast.Add, ast.Sub)) and _is_const_num(n.value, (0, 0.0))):
+                continue                                   # the identity
+            tainted[n.target.id] = n.value
+    for t, v in sorted(tainted.items()):
+        where = binds_of.get(id(v), v)
+        run.fail('the parsed weight is kept as float() returned it (validated, never rounded / truncated / scaled)', f, where,
+                 where=f.loc(where), runtime_witness=_R11_WITNESS)
+
+    def is_q(e):
+        return isinstance(e, ast.Name) and isinstance(e.ctx, ast.Load) and e.id in same
+
+    def is_any_q(e):
+        return isinstance(e, ast.Name) and isinstance(e.ctx, ast.Load) and (e.id in same or e.id in tainted)
+
+    # (4) the constructor slot of every range built after the conversion
+    start = cfg.nodes_for(stmt)
+    if not start:
+        raise AnchorError('_MediaRange.parse: the float() statement is not live')
+    after = flow.reachable(cfg, start, edge_filter=flow.no_exc)
+    n_ctor = 0
+    for n in cfg.live_nodes():
+        if n.id not in after or n.id in start:
+            continue
+        for c in n.calls():
+            fn = _unwrap_cast(c.func)
+            is_ctor = (isinstance(fn, ast.Name) and fn.id == 'cls') or p.resolve_callable(f, c.func) is rc or \
+                (isinstance(p.resolve_callable(f, c.func), Class) and p.resolve_callable(f, c.func).qual == rc.qual)
+            if not is_ctor:
+                continue
+            if any(isinstance(a, ast.Starred) for a in c.args) or any(k.arg is None for k in c.keywords):
+                raise UnknownIdiom('_MediaRange.parse: %s' % short(c, 80))
+            arg = c.args[qi] if qi < len(c.args) else next((k.value for k in c.keywords if k.arg == 'quality'), None)
+            if arg is None:
+                raise UnknownIdiom('_MediaRange.parse: %s passes no quality' % short(c, 80))
+            n_ctor += 1
+            arg_u = _unwrap_cast(arg)
+            if isinstance(arg_u, ast.Name) and arg_u.id in tainted:
+                continue                                   # reported on the rebinding
+            shp = _q_shape(p, f, arg, is_any_q)
+            if shp in (None, 'unknown'):
+                raise UnknownIdiom('_MediaRange.parse: weight of the range built by %s' % short(c, 80))
+            run.check(shp == 'same', 'the range object stores the weight the client sent: the quality slot of the constructor receives the '
+                      'parsed float itself', f, arg if shp != 'same' else c, where=f.loc(c), runtime_witness=_R11_WITNESS)
+    if not n_ctor:
+        raise AnchorError('_MediaRange.parse: no range is constructed after the q conversion')
+
+    # (5) no method of the class rewrites the stored weight
+    n_w = 0
+    for m in rc.methods.values():
+        mp = _param_names(m)
+        for n in walk_self(m.node):
+            val = None
+            if isinstance(n, (ast.Assign, ast.AugAssign, ast.AnnAssign)):
+                tg = n.targets if isinstance(n, ast.Assign) else [n.target]
+                if any(isinstance(x, ast.Attribute) and x.attr == 'quality' and isinstance(x.ctx, ast.Store) for t in tg for x in ast.walk(t)):
+                    val = n
+            elif isinstance(n, ast.Call) and isinstance(n.func, ast.Attribute) and n.func.attr == '__setattr__' and len(n.args) >= 2 \
+                    and any(isinstance(a, ast.Constant) and a.value == 'quality' for a in n.args[:2]):
+                val = n
+            if val is None:
+                continue
+            n_w += 1
+            v = val.args[-1] if isinstance(val, ast.Call) else getattr(val, 'value', None)
+
+            def is_stored(e):
+                return (isinstance(e, ast.Name) and e.id in mp) or (isinstance(e, ast.Attribute) and e.attr == 'quality' and isinstance(e.ctx, ast.Load))
+            shp = 'transformed' if isinstance(val, ast.AugAssign) else (_q_shape(p, m, v, is_stored) if v is not None else 'unknown')
+            if shp in (None, 'unknown'):
+                raise UnknownIdiom('%s writes quality: %s' % (m.qual, short(val, 80)))
+            run.check(shp == 'same', 'the range object stores the weight as handed to its constructor', m, val, where=m.loc(val),
+                      runtime_witness=_R11_WITNESS)
+    if not n_w:
+        run.ok('no method of %s rewrites the stored quality (the generated constructor stores the argument)' % rc.qual.rsplit('.', 1)[-1], rc.loc())
 
 
 # ---------------------------------------------------------------------------
@@ -4388,3 +4888,5 @@ def check(run):
     run.rule('R10', _safe(r10_negotiated_answers), 'client_accepts()/client_prefers() answer by negotiation over the whole Accept header; a shortcut '
              'is guarded by the equality of the whole header with the requested type or */*, never by a test on a part of its text', floor=6)
     run.rule('R7', _safe(r7_resolve_by_content_type), 'get_media()/render_body() of both flavours resolve by the content type itself and the options default', floor=12)
+    run.rule('R11', _safe(r11_quality_stored_as_parsed), 'the weight stored for a range is the float parsed from the q text itself: validated, '
+             'never rounded / truncated / scaled between float() and the constructor slot', floor=4)
